@@ -549,6 +549,31 @@ gproof! { fn c08_arc_make_mut__nodrop_clone_counted() {
     core::mem::forget(a);
 } }
 
+// @h props=C08,C03 fuc=Arc::make_mut,Arc::is_unique note="ZERO-SIZED payload: a sharer is still redirected to a fresh solely-owned copy made with Clone; the old allocation loses exactly one owner"
+gproof! { fn c08_arc_make_mut__zst_clone_counted() {
+    let n = any_count();
+    let mut a = mk(vrt::Zc, n);
+    let (b0, c0) = (base(&a), cw(&a));
+    let _r = Arc::make_mut(&mut a);
+    if n == 1 {
+        assert!(base(&a) == b0 && vrt::clones() == 0 && vrt::ga(1));
+    } else {
+        assert!(base(&a) != b0 && cnt(&a) == 1 && rd(c0) == n - 1 && vrt::clones() == 1 && vrt::ga(2) && vrt::gd(0));
+    }
+    assert!(a.is_unique());
+    core::mem::forget(a);
+} }
+
+// @h props=C03,C04 fuc=Arc::with_raw_offset_arc,Arc::get_mut,Arc::is_unique note="lending a sole owner through with_raw_offset_arc does not cost it its uniqueness"
+gproof! { fn c03_arc_unique_after_with_raw_offset_arc() {
+    let n = any_count();
+    let mut a = mk(S9a8::any(), n);
+    let inside = a.with_raw_offset_arc(|o| OffsetArc::strong_count(o));
+    assert!(inside == n && cnt(&a) == n);
+    assert!(a.is_unique() == (n == 1) && Arc::get_mut(&mut a).is_some() == (n == 1));
+    core::mem::forget(a);
+} }
+
 // @h props=C08,C09 fuc=Arc::unwrap_or_clone note="payload without drop glue: cloned exactly once iff shared"
 gproof! { fn c09_arc_unwrap_or_clone__nodrop_clone_counted() {
     let n = any_count();
@@ -963,6 +988,27 @@ pub(crate) mod serde_h {
         core::mem::forget(a);
     } }
 
+    // zero-sized payload with its own (non-unit) serialisation
+    pub struct Sz;
+    impl Serialize for Sz {
+        fn serialize<S: Serializer>(&self, s: S) -> Result<S::Ok, S::Error> {
+            unsafe { SP_CALLS += 1; SP_SELF = self as *const Sz as usize; }
+            s.serialize_u32(0xC0FFEE)
+        }
+    }
+    // @h props=C17 mod=serde_h fuc=Arc::serialize,UniqueArc::serialize note="zero-sized payload: still serialised by ITS OWN serialize, not by a shortcut"
+    gproof! { fn c17_serialize_zero_sized_payload_transparent() {
+        let a = Arc::new(Sz);
+        let (token, outcome) = (kani::any::<u8>(), any_outcome());
+        let r = a.serialize(Rec { token, outcome });
+        assert!(unsafe { SP_CALLS == 1 && SP_SELF == data(&a) && REC_CALLS == 1 && REC_LAST == 0xC0FFEE && REC_TOKEN == token } && r == outcome);
+        let u = UniqueArc::new(Sz);
+        let r2 = u.serialize(Rec { token, outcome });
+        assert!(unsafe { SP_CALLS == 2 && REC_CALLS == 2 } && r2 == outcome);
+        core::mem::forget(a);
+        core::mem::forget(u);
+    } }
+
     // @h props=C17 mod=serde_h fuc=UniqueArc::serialize
     gproof! { fn c17_unique_serialize_transparent() {
         let v: u32 = kani::any();
@@ -1320,7 +1366,7 @@ pub(crate) mod uns_h {
         let x = mk([1u8, 2, 3, 4], n);
         let b = x.borrow_arc();
         let s: crate::ArcBorrow<[u8]> = b.unsize(Coercion::to_slice());
-        assert!((s.0.as_ptr() as *const [u8]).len() == 4 && cnt(&x) == n && vrt::addr(s.0.as_ptr() as *const [u8]) == data(&x));
+        assert!((vrt::bptr(&s)).len() == 4 && cnt(&x) == n && vrt::addr(vrt::bptr(&s)) == data(&x));
         core::mem::forget(x);
     } }
 }
